@@ -87,9 +87,9 @@ theorem RInv.tinv {base : Store} {q : Nat} {d : Bool} {p : PS} (h : RInv base q 
   rw [h1] at r1
   rw [h2] at r2
   split at r1
-  · cases r1; simp [shellElem] at h3
+  · cases r1; simp [shellElem, stubRow] at h3
   · split at r2
-    · cases r2; simp [shellElem] at h4
+    · cases r2; simp [shellElem, stubRow] at h4
     · exact ht i j ei ej t hi hj r1.symm r2.symm h3 h4
 
 theorem discard_sub (s : Store) (l : List Id) (i : Id) (e : Elem) (h : (discardShells s l).elems i = some e) :
